@@ -275,12 +275,22 @@ pub struct PropertyDef {
     pub floor: (u64, u64),
     /// How a suspect case (shard died / hung on it) is judged: returns Some(violation) if the death is itself
     /// a refutation for this property (crash-monitoring properties), None if it is only a harness problem.
-    pub on_case_death: fn(&Cfg, &str, u64, &str) -> Option<Violation>,
+    pub on_case_death: fn(&Cfg, &str, u64, &str) -> Death,
+}
+
+/// How the death of a shard on a case is judged by a property.
+pub enum Death {
+    /// the death itself refutes the property (crash/hang-monitoring properties)
+    Violation(Violation),
+    /// the property says nothing about this death; the case is not decided
+    Inconclusive(String),
+    /// a problem of the harness: the run has no verdict
+    HarnessError,
 }
 
 pub fn no_extra(_: &Cfg, _: &mut Stats) {}
-pub fn death_is_harness_error(_: &Cfg, _: &str, _: u64, _: &str) -> Option<Violation> {
-    None
+pub fn death_is_harness_error(_: &Cfg, _: &str, _: u64, _: &str) -> Death {
+    Death::HarnessError
 }
 
 fn scratch_base() -> PathBuf {
@@ -290,6 +300,15 @@ fn scratch_base() -> PathBuf {
 
 /// Run one shard in this process (child side). Writes stats JSON to `out` (atomically, also periodically).
 pub fn shard_main(def: &PropertyDef, cfg: &Cfg, gen_name: &str, k: u64, n: u64, start: u64, out: &Path, progress: &Path) -> i32 {
+    // bound the address space of a shard: a memory blow-up in the code under test then aborts this shard (and is
+    // attributed to its case) instead of driving the whole machine out of memory
+    unsafe {
+        let limit: libc::rlim_t = 5 << 30;
+        let lim = libc::rlimit { rlim_cur: limit, rlim_max: limit };
+        libc::setrlimit(libc::RLIMIT_AS, &lim);
+        let zero = libc::rlimit { rlim_cur: 0, rlim_max: 0 };
+        libc::setrlimit(libc::RLIMIT_CORE, &zero);
+    }
     let gens = (def.generators)(cfg);
     let Some(generator) = gens.into_iter().find(|g| g.name == gen_name) else {
         eprintln!("unknown generator {gen_name}");
@@ -453,8 +472,9 @@ pub fn run_sharded(def: &PropertyDef, cfg: &Cfg) -> Stats {
                                     merged.inconclusive("wall-clock watchdog fired");
                                 } else {
                                     match (def.on_case_death)(cfg, generator.name, idx, &death) {
-                                        | Some(v) => merged.violation(v),
-                                        | None => merged.harness_error(format!(
+                                        | Death::Violation(v) => merged.violation(v),
+                                        | Death::Inconclusive(why) => merged.inconclusive(&why),
+                                        | Death::HarnessError => merged.harness_error(format!(
                                             "shard {}#{} died ({}, marker {}) on case {}",
                                             generator.name, k, death, how, idx
                                         )),
